@@ -102,6 +102,26 @@ macro_rules! aset_api {
                         }
                     }
                     "len" => $mut::<$V>::from_bytes_mut(bytes).len().to_string(),
+                    "bulk" => {
+                        let mut s = $mut::<$V>::from_bytes_mut(bytes);
+                        let mut n = 0usize;
+                        for j in 0..op.args[1] {
+                            if s.insert(<$V as Num>::from_i(op.args[0] + j)) {
+                                n += 1;
+                            }
+                        }
+                        n.to_string()
+                    }
+                    "bulkrem" => {
+                        let mut s = $mut::<$V>::from_bytes_mut(bytes);
+                        let mut n = 0usize;
+                        for j in 0..op.args[1] {
+                            if s.remove(&<$V as Num>::from_i(op.args[0] + j)) {
+                                n += 1;
+                            }
+                        }
+                        n.to_string()
+                    }
                     "full" => $mut::<$V>::from_bytes_mut(bytes).is_full().to_string(),
                     "empty" => $mut::<$V>::from_bytes_mut(bytes).is_empty().to_string(),
                     "view" => list($mut::<$V>::from_bytes_mut(bytes).deref()),
@@ -198,7 +218,7 @@ impl<A: AApi> ASut<A> {
         let mut it = l.split_whitespace();
         let name = it.next()?;
         const NAMES: &[&str] = &[
-            "open", "ext", "ins", "rem", "take", "get", "gmq", "has", "upd", "len", "full", "empty", "view", "rget", "rhas", "rlen", "rfull", "rempty", "rview", "fill",
+            "open", "ext", "ins", "rem", "take", "get", "gmq", "has", "upd", "len", "full", "empty", "view", "rget", "rhas", "rlen", "rfull", "rempty", "rview", "fill", "bulk", "bulkrem",
         ];
         let n = NAMES.iter().find(|n| **n == name)?;
         Some(Op { name: n, args: it.filter_map(|a| a.parse().ok()).collect(), blob: None })
@@ -312,7 +332,7 @@ impl<A: AApi> Sut for ASut<A> {
     }
     fn kind(&self, op: &Op) -> Kind {
         match op.name {
-            "ins" | "rem" | "take" | "upd" | "ext" => Kind::Mutating,
+            "ins" | "rem" | "take" | "upd" | "ext" | "bulk" | "bulkrem" => Kind::Mutating,
             _ => Kind::Query,
         }
     }
@@ -324,7 +344,7 @@ impl<A: AApi> Sut for ASut<A> {
         }
     }
     fn sessionable(&self, op: &Op) -> bool {
-        !matches!(op.name, "ext" | "open" | "fill")
+        !matches!(op.name, "ext" | "open" | "fill" | "bulk" | "bulkrem")
     }
     fn session(&self, buf: &mut ABuf, ops: &[Op]) -> Option<Vec<String>> {
         take_log();
@@ -427,6 +447,26 @@ impl<A: AApi> Sut for ASut<A> {
             "full" | "rfull" => Some((m.len() >= bound).to_string()),
             "empty" | "rempty" => Some(m.is_empty().to_string()),
             "view" | "rview" => Some(list(&m)),
+            "bulk" => {
+                // ascending fresh values: each is inserted until the bound is reached
+                let fresh = (0..op.args[1]).filter(|j| !m.contains_key(&Self::key_of(op.args[0] + j))).count();
+                let n = fresh.min(bound - m.len());
+                for j in 0..op.args[1] {
+                    if exp.len() < bound && !exp.contains_key(&Self::key_of(op.args[0] + j)) {
+                        exp.insert(Self::key_of(op.args[0] + j), op.args[0] + j);
+                    }
+                }
+                Some(n.to_string())
+            }
+            "bulkrem" => {
+                let mut n = 0;
+                for j in 0..op.args[1] {
+                    if exp.remove(&Self::key_of(op.args[0] + j)).is_some() {
+                        n += 1;
+                    }
+                }
+                Some(n.to_string())
+            }
             "fill" => {
                 let mut n = 0usize;
                 while n < bound - m.len() && (n as i128) < op.args[1] && !m.contains_key(&Self::key_of(op.args[0] + n as i128)) {
